@@ -161,6 +161,9 @@ public:
     // the user changes alpha / beta / minimum weight between two runs: a new checkpoint with the
     // parameters of q takes over the results one by one (public add) and the current generator
     virtual bool transplant(Plan const& q) = 0;
+    // the checkpoint without its generators (a copy of the base class object, as a program that only
+    // archives results keeps it) written and read back: empty string if the text is reproduced
+    virtual std::string base_roundtrip() const = 0;
 
     // public serial *_iteration on the state recorded in result k and the generator stored before
     // iteration k, with `calls` calls (C04 oracle)
